@@ -23,7 +23,7 @@ from .report import SubVerdict, Verdict
 from .tlc import MachineryError
 from .tracecheck import validate
 
-SRC_FLAVOURS = ("cls", "agen", "clsnoclose", "list", "seq", "iter")
+SRC_FLAVOURS = ("cls", "agen", "clsnoclose", "list", "seq", "iter", "clslazy", "clsgetattr")
 
 
 def stratified(rnd, cases, cap):
@@ -325,7 +325,7 @@ def expected_suspensions(o, susp, fl):
             f = fl["src"][i - 1] if isinstance(fl["src"], list) and i >= 1 else (fl.get("outer") if i == 0 else fl["src"])
             if isinstance(fl["src"], list) and i == 0:
                 f = fl.get("outer", "cls")
-            if f in ("cls", "agen", "clsnoclose", "clstruthy", "clsraiseclose"):
+            if f in ("cls", "agen", "clsnoclose", "clstruthy", "clsraiseclose", "clslazy", "clsgetattr"):
                 n += susp
         elif e["ev"] == "call" and fl["call"] != "def":
             n += susp
